@@ -213,6 +213,25 @@ Proof.
         (conj keyboard_key_spec (conj dec_devattrs_spec (conj dec_kitty_image_spec (conj dec_osc_spec dec_decmode_spec)))))))).
 Qed.
 
+(* legacy cursor / editing / function keys with a modifier parameter (ModifiedKeyMatcher, CSI code ; m
+   final): the modifier set is the parameter minus one, at most 255 (a zero parameter or a larger set
+   makes the sequence unrecognised: nothing is masked away), the key is named by the final byte and code *)
+Theorem C02_modified_keys : forall data kind arg mode,
+  dec_modkey data = Ok (RSome (PKey kind arg mode)) ->
+  exists body code rest last,
+    mid data 2 1 = Ok body /\ numbers_decode body 59 = code :: (mode + 1) :: rest /\ mode <= 255 /\
+    index data (length data - 1) = Ok last /\
+    (if last =? 126 then tilde_key code else if code =? 1 then final_key last else None) = Some (kind, arg).
+Proof. exact dec_modkey_spec. Qed.
+
+Example C02_modified_keys_nonvacuous :
+  dec_modkey [27; 91; 49; 53; 59; 50; 126] = Ok (RSome (PKey 4 5 1)) /\          (* ESC[15;2~ = shift+F5 *)
+  dec_modkey [27; 91; 49; 59; 57; 65] = Ok (RSome (PKey 15 0 8)) /\              (* ESC[1;9A = super+Up *)
+  dec_modkey [27; 91; 49; 59; 50; 53; 55; 65] = Ok RNone /\                      (* ESC[1;257A: set 256 *)
+  dec_modkey [27; 91; 49; 59; 48; 65] = Ok RNone /\                              (* ESC[1;0A *)
+  dec_modkey [27; 91; 57; 59; 50; 126] = Ok RNone.                               (* ESC[9;2~: no such key *)
+Proof. vm_compute. repeat split; reflexivity. Qed.
+
 (* SGR mouse reports: button name and modifier set in the arithmetic of the protocol (low two bits =
    button, +4 shift, +8 alt, +16 ctrl, +64 wheel; final `M` = press).  A button has a name unless
    bit 7 is set (buttons 8..11) or it is the horizontal wheel (codes 66 / 67 + modifiers): such a
@@ -256,7 +275,7 @@ Qed.
    decoders sit where the model's dispatch expects them *)
 Lemma C02_tables :
   tagged_ok event_dfa = true /\ tagged_ok command_dfa = true /\
-  event_matcher_ids = [0; 1; 2; 3; 4; 5; 6; 7; 8; 9; 10; 11; 12; 13] /\ command_matcher_ids = [4; 12].
+  event_matcher_ids = [0; 1; 2; 3; 4; 5; 6; 7; 8; 9; 10; 11; 12; 13; 14] /\ command_matcher_ids = [4; 12].
 Proof. vm_compute. repeat split; reflexivity. Qed.
 
 (* ------------------------------------------------------------------------- *)
